@@ -10,8 +10,10 @@
   assignment `x[i] = v` through a variable with a constant or a computed index, whose rewriting keeps value and
   index in temporaries —, chained assignment `a = b = v` (a temporary again), augmented and annotated
   assignment, declarations, walrus, yield, if / while / for / try / with, nested def / class / import,
-  return / raise / break / continue; `global` / `nonlocal` statements, annotated assignment to attributes or
-  elements, and the statement forms the model keeps opaque are outside), every capture set, every host (whatever calls, arithmetic, iteration, context managers … do),
+  return / raise / break / continue; closures — the function may read variables of enclosing functions, which
+  the rewritten code shows to the handler at entry without letting it override them; `global` / `nonlocal`
+  statements, annotated assignment to attributes or elements, and the statement forms the model keeps opaque
+  are outside), every capture set, every host (whatever calls, arithmetic, iteration, context managers … do),
   every handler, every input, every driving script of a generator and every loop bound, the rewritten
   function ends the same way as the reference semantics of the original — same result or exception, same
   world (side effects, in order), same handler state (events), same values yielded and received.
@@ -21,7 +23,9 @@
   binding store exactly what Python would have stored.
 
   `C01_transparent` — the full statement on the model: for every function of the core fragment WITHOUT bare
-  declarations (the documented exception), every capture set, every host that never hands ptera's marker to
+  declarations (the documented exception) whose closure variables hold a value when it is called (the rewritten
+  function reads them at entry: an empty cell would fail there instead of at the first use), every capture set,
+  every host that never hands ptera's marker to
   the program (`HostGood`: closure of a predicate `Good` on values under all host operations), every handler
   that only observes, every input / generator script / loop bound: the REWRITTEN function ends the same way
   as the UNTOUCHED one under plain Python semantics (`hk = none`), with the same world (side effects in
@@ -56,12 +60,13 @@ theorem C01_transparent (host : Host W HS) (hh : HostSpec host) (Good : Val → 
     (cfg : Cfg) (f : FunDef) (fuel : Nat) (hf : coreF f = true) (hnd : noDeclB (bodyWithReturn f) = true)
     (st0 : St W HS)
     (hext : ∀ x ∈ (collect f).external, st0.loc x = none)
+    (hcell : ∀ x ∈ f.freevars, (collect f).assigned.contains x = false ∧ host.glob x ≠ none)
     (hpar : ∀ p ∈ f.params, st0.loc p.name ≠ none)
     (hgood : ∀ x v, st0.loc x = some v → Good v) (hinp : ∀ cmd ∈ st0.inp, GoodCmd Good cmd)
     (hcur : ∀ e ∈ st0.cur, Good e) (hw : WInv st0.w) :
     Transparent host cfg f fuel st0 := by
   have h1 := instrument_refines host cfg f fuel hf (libSpec_of_host host hh cfg f fuel hf) st0 hext
-  have h2 := erasure host cfg f fuel Good WInv hg hobs pne hf hnd st0 hext hpar hgood hinp hcur hw
+  have h2 := erasure host cfg f fuel Good WInv hg hobs pne hf hnd st0 hext hcell hpar hgood hinp hcur hw
   obtain ⟨e1, o1⟩ := h1
   obtain ⟨e2, _, r2⟩ := h2
   have eR : (ectxOf host cfg f fuel Good WInv).envR = (ctxOf host cfg f fuel).envR := rfl
@@ -106,7 +111,9 @@ theorem C01_uncaptured_untouched (env : Env W HS) (cfg : Cfg) (henv : env.hk = s
     function of the fragment, capture set, integer arguments, condition script, driver script and loop bound,
     the rewritten function does what the untouched one does (none of the hypotheses about hosts is left) -/
 theorem C01_transparent_generated (cfg : Cfg) (f : FunDef) (fuel : Nat) (hf : coreF f = true)
-    (hnd : noDeclB (bodyWithReturn f) = true) (args : List Int) (hlen : f.params.length ≤ args.length)
+    (hnd : noDeclB (bodyWithReturn f) = true)
+    (hcell : ∀ x ∈ f.freevars, (collect f).assigned.contains x = false ∧ PyLite.hostObs.glob x ≠ none)
+    (args : List Int) (hlen : f.params.length ≤ args.length)
     (script : List Bool) (inp : List GenCmd) (hinp : ∀ cmd ∈ inp, GoodCmd PyLite.Good cmd) :
     Transparent PyLite.hostObs cfg f fuel
       { loc := initLoc (f.params.map (·.name)) (args.map Val.int), w := { script := script }, hs := {},
@@ -115,7 +122,7 @@ theorem C01_transparent_generated (cfg : Cfg) (f : FunDef) (fuel : Nat) (hf : co
   simp only [coreF, Bool.and_eq_true, List.all_eq_true] at hf'
   obtain ⟨⟨⟨⟨⟨_, _⟩, _⟩, _⟩, _⟩, hparam⟩ := hf'
   refine C01_transparent PyLite.hostObs PyLite.hostSpecObs PyLite.Good PyLite.WInv PyLite.hostGood PyLite.observer
-    PyLite.pne cfg f fuel hf hnd _ ?_ ?_ ?_ hinp (by intro e he; simp at he) ⟨rfl, rfl, by intro p hp; simp at hp⟩
+    PyLite.pne cfg f fuel hf hnd _ ?_ hcell ?_ ?_ hinp (by intro e he; simp at he) ⟨rfl, rfl, by intro p hp; simp at hp⟩
   · intro x hx
     apply initLoc_none
     intro hm
@@ -190,5 +197,24 @@ theorem C01_sample2_runs :
     ∧ ((runInstr (ctxOf PyLite.host [⟨none, none⟩] sample2 5).envI 5
         (instrument [⟨none, none⟩] sample2) sampleState).2.hs.events.map (·.name))
       = ["#enter", "O", "a", "c", "b", "O", "#value", "#exit"] := by decide +kernel
+
+/-- a closure (`def f(a): b = a + K1; return b` inside a function whose variable `K1` holds 31): in the fragment,
+    and the hypothesis on the cells holds -/
+def sample3 : FunDef :=
+  { name := "f", params := [{ name := "a", ann := none }], defaults := [], returns := none, doc := none,
+    body := [.assign [.name "b"] (.binop "Add" (.name "a") (.name "K1")), .ret (some (.name "b"))],
+    freevars := ["K1"] }
+
+theorem C01_sample3_in_fragment : coreF sample3 = true
+    ∧ ∀ x ∈ sample3.freevars, (collect sample3).assigned.contains x = false ∧ PyLite.hostObs.glob x ≠ none := by
+  decide +kernel
+
+/-- a test: the closure variable is shown to the handler at entry, before the parameters -/
+theorem C01_sample3_runs :
+    isRetInt (runInstr (ctxOf PyLite.host [⟨none, none⟩] sample3 5).envI 5
+        (instrument [⟨none, none⟩] sample3) sampleState).1 36 = true
+    ∧ ((runInstr (ctxOf PyLite.host [⟨none, none⟩] sample3 5).envI 5
+        (instrument [⟨none, none⟩] sample3) sampleState).2.hs.events.map (·.name))
+      = ["#enter", "K1", "a", "b", "#value", "#exit"] := by decide +kernel
 
 end Ptera.Props.C01
